@@ -615,7 +615,7 @@ def enumerate_est(tier):
 
 def random_cases(tier, rng):
     cases = []
-    nm, ne, npipe = (400, 100, 100) if tier == 'quick' else (10000, 2000, 2000)
+    nm, ne, npipe = (400, 100, 100) if tier == 'quick' else (6000, 1500, 1500)
     for _ in range(nm):       # long measurement lists, up to 16 base stations, larger windows
         n = rng.randint(0, 40)
         nbs = rng.choice([1, 2, 3, 6, 16])
@@ -703,7 +703,8 @@ def signature(tr, clause):
 
 
 def _size(case):
-    return (len(case.get('meas', [])) + sum(len(s) for s in case.get('samples', [])), json.dumps(case, sort_keys=True))
+    return (len(case.get('meas', [])) + sum(len(s) for s in case.get('samples', [])), 'corrupt' in case,
+            case.get('order', 0), json.dumps(case, sort_keys=True))
 
 
 # --------------------------------------------------------------------------- the check
@@ -866,7 +867,7 @@ def main(tier, seed, replay=None):
     # 4. sensitivity: in-memory mutants must be rejected by the monitor (on cases the unmodified code passes)
     bad_idx = {k for (k, _c, _a) in bad}
     ok_idx = [k for k in range(len(cases)) if k not in bad_idx]
-    per_kind = 150 if tier == 'quick' else 800
+    per_kind = 150 if tier == 'quick' else 500
     sub = {}
     for kind in ('match', 'est', 'pipe'):
         ks = [k for k in ok_idx if cases[k]['kind'] == kind]
